@@ -1357,6 +1357,40 @@ class _ExprNorm(ast.NodeTransformer):
     def visit_Call(self, node):
         self.generic_visit(node)
         f = u(node.func)
+        # "..{}..{name}..".format(a, name=b)  ->  f"..{a}..{b}.."     (plain fields: no conversion, no format spec, no attribute / index lookups)
+        if isinstance(node.func, ast.Attribute) and node.func.attr == "format" and isinstance(node.func.value, ast.Constant) and isinstance(node.func.value.value, str) \
+                and not any(isinstance(a, ast.Starred) for a in node.args) and all(k.arg is not None for k in node.keywords):
+            import string as _string
+            try:
+                pieces = list(_string.Formatter().parse(node.func.value.value))
+            except ValueError:
+                pieces = None
+            if pieces is not None:
+                kw = {k.arg: k.value for k in node.keywords}
+                vals, auto, okf = [], 0, True
+                numbered = any(fld not in (None, "") and fld.isdigit() for _, fld, _, _ in pieces)
+                for lit, fld, spec, conv in pieces:
+                    if lit:
+                        vals.append(ast.Constant(lit))
+                    if fld is None:
+                        continue
+                    if spec or conv:
+                        okf = False
+                        break
+                    if fld == "" and not numbered and auto < len(node.args):
+                        vals.append(ast.FormattedValue(value=node.args[auto], conversion=-1, format_spec=None))
+                        auto += 1
+                    elif fld.isdigit() and int(fld) < len(node.args):
+                        vals.append(ast.FormattedValue(value=copy.deepcopy(node.args[int(fld)]), conversion=-1, format_spec=None))
+                    elif fld in kw:
+                        vals.append(ast.FormattedValue(value=copy.deepcopy(kw[fld]), conversion=-1, format_spec=None))
+                    else:
+                        okf = False
+                        break
+                used_all = okf and (numbered or auto == len(node.args))
+                # (every argument is evaluated by .format whether its field occurs or not: only rewrite when each occurs exactly once, in order)
+                if okf and used_all and not numbered and not kw:
+                    return ast.copy_location(ast.JoinedStr(values=vals), node)
         # operator / functools callables applied on the spot:
         #   attrgetter("a")(x) -> x.a      itemgetter(k)(x) -> x[k]      methodcaller("m", *a)(x) -> x.m(*a)      partial(f, *a, **k)(*b, **c) -> f(*a, *b, **k, **c)
         if isinstance(node.func, ast.Call) and not any(isinstance(a, ast.Starred) for a in node.func.args):
@@ -1500,7 +1534,8 @@ class _ExprNorm(ast.NodeTransformer):
             return ast.copy_location(ast.Call(func=ast.Name(id="sorted", ctx=ast.Load()), args=[items], keywords=[]), node)
         # inspect.getmembers(obj, pred) -> [(n, v) for n, v in inspect.getmembers(obj) if pred(v)]     (documented behaviour)
         if f in ("inspect.getmembers", "getmembers") and len(node.args) == 2 and not node.keywords and \
-                (isinstance(node.args[1], ast.Lambda) or norm._attr_chain(node.args[1]) is not None):
+                (isinstance(node.args[1], ast.Lambda) or norm._attr_chain(node.args[1]) is not None or (
+                    isinstance(node.args[1], ast.Call) and u(node.args[1].func).split(".")[-1] == "partial")):
             self._fresh[0] += 1
             a_, b_ = f"f{self._fresh[0]}n_", f"f{self._fresh[0]}v_"
             test = self.visit(ast.Call(func=node.args[1], args=[ast.Name(id=b_, ctx=ast.Load())], keywords=[]))
